@@ -43,7 +43,8 @@ CHECKS["C17"] = dict(
         "expectations that are replayed into JonesFresnel / retarder / diattenuator code. Trace_Polarization validates recorded executions in exact "
         "dyadic arithmetic: JonesFresnel matrices for random index pairs and angles, all ten Jones element classes (idempotence, unitarity, retardance, "
         "rotation covariance), polarized lens traces (intensity preserved without coatings, field transverse, unpolarized = mean of orthogonal states), "
-        "single coated surfaces at oblique incidence. Calibration with corrupted records every run.",
+        "single coated surfaces at oblique incidence, circular polarizers used as the coating of a lens surface (stated state passes, orthogonal one blocked, "
+        "unpolarized halved, twice is once). Calibration with corrupted records every run.",
    technique="TLA+ law module + TLC exhaustive MC on an exact rational grid; spec->code case replay; code->spec trace validation (dyadic arithmetic)",
    ref="6 (C17)")
 CHECKS["C18"] = dict(
@@ -151,9 +152,12 @@ CHECKS["C14"] = dict(
 CHECKS["C15"] = dict(
    text="spec/Tolerancing.tla models the sensitivity and Monte-Carlo loops (Reset, Apply, Compensate, Evaluate with failure injection, Record, EndRun); "
         "MC_Tolerancing checks RowsTrue, NominalReproduced, Reproducible, EndStateNominal and ResetRestores exhaustively over sampler kinds, random "
-        "streams and failure sets, with negative configs (no final reset; no per-trial reset). Trace_Tolerancing validates real SensitivityAnalysis and "
+        "streams and failure sets, with the variable handles (initv, HandlesNominal) and the user's what-if steps after a run (UserApply / "
+        "UserCompensate / UserReset), and with negative configs (no final reset; no per-trial reset; a compensation that re-bases its handle - invisible "
+        "to the run alone, exposed by a what-if history). Trace_Tolerancing validates real SensitivityAnalysis and "
         "MonteCarlo runs: each row is re-derived on a from_dict(to_dict()) copy of the nominal lens from the recorded perturbation values, nominal "
-        "reproduction, reproducibility of seeded samplers between two sessions, end state and reset. Calibration with corrupted records.",
+        "reproduction, reproducibility of seeded samplers between two sessions, end state and reset, what-if histories on the same object after the run "
+        "and tolerances on the compensator's own parameter. Calibration with corrupted records.",
    technique="TLA+ loop protocol + TLC MC incl. negative configs; code->spec trace validation of real tolerancing runs (dyadic)",
    ref="6 (C15)")
 CHECKS["C20"] = dict(
